@@ -149,10 +149,17 @@ class C15(core.Check):
                 'yy_e1': {'type': 'enumeration', 'bytecode': {'size': 4, 'value_dict': {'kx': 5, 'ky': 6}}, 'argument': {'size': 8, 'byte_align': True, 'value_dict': {'kx': 1, 'ky': 2}}},
                 'cc_e2': {'type': 'enumeration', 'bytecode': {'size': 4, 'value_dict': {'kx': 7, 'kz': 8}}, 'argument': {'size': 8, 'byte_align': True, 'value_dict': {'kx': 3, 'kz': 4}}}}}
             isa['instructions']['tie4'] = {'bytecode': {'value': 9, 'size': 4}, 'operands': {'count': 1, 'operand_sets': {'list': ['tie']}}}
+            # enumeration keys that differ in letter case only are different keys - in every run
+            ck_ = {'N': 1, 'n': 2, 'Kq': 3, 'kQ': 4, 'KQ': 5, 'kq': 6, 'zed': 7}
+            isa['operand_sets']['casekeys'] = {'operand_values': {
+                'ck': {'type': 'enumeration', 'bytecode': {'size': 4, 'value_dict': ck_},
+                       'argument': {'size': 8, 'byte_align': True, 'value_dict': {k_: 0x10 * v_ for k_, v_ in ck_.items()}}}}}
+            isa['instructions']['cas4'] = {'bytecode': {'value': 10, 'size': 4}, 'operands': {'count': 1, 'operand_sets': {'list': ['casekeys']}}}
             src = []
             for n_, m_ in enumerate(mns):
                 src.append(m_ + (' 5' if n_ % 2 else ''))
             src += ['tie4 [sp]', 'tie4 [sp+3]', 'tie4 5', 'tie4 kx', 'tie4 ky', 'tie4 kz', 'tie4 [sp]']
+            src += ['cas4 ' + k_ for k_ in ck_]
             src.append(mns[0] + 'x2')
             src.append('m.' + mns[2])
             for a_ in range(len(mns)):
